@@ -52,13 +52,14 @@ def quiet():
         sys.stdout = old
 
 
-def run_native(contract, case, values):
+def run_native(contract, case, values, pins=None):
     """returns ('ok', P, ctx) | ('raise', P, exc) | ('outside', P, None)"""
     ps = native_ps()
     import processscheduler.base as base
 
     base.active_problem = None
     P = Params(values)
+    P.pins = dict(pins or {})
     import warnings
 
     with quiet(), warnings.catch_warnings():
@@ -266,7 +267,10 @@ def run_case(contract_id, case, props, tier="quick", seed=0, diff=True):
             report["sentinels"].append({"name": cl.name, "refuted": r["answer"] == "sat", "path": pi})
         # CPython differential on this path
         if diff:
-            _differential(report, contract, case, path, P, pc, ctx, clauses, props, seed)
+            _differential(report, contract, case, path, P, pc, ctx, clauses, props, seed, pi)
+    for name, vals, goal in report.pop("native_false", []):
+        if not any(ob["clause"] == name and ob["status"] == "refuted" for ob in report["obligations"]):
+            report["faults"].append(f"differential(eval): clause {name} is discharged on every engine path but false on the native run at {vals}: {goal}"[:1200])
     report["wall_s"] = time.perf_counter() - t_start
     return report
 
@@ -287,6 +291,7 @@ def _discharge_clause(report, contract, case, path, P, pc, cl, props, oid, timeo
             "path": pi,
             "bounded": cl.bounded or contract.bounded,
             "status": None,
+            "clause": cl.name,
         }
         # vacuity: hypotheses must be satisfiable on this path
         if cl.hyps and cl.kind in ("sound", "equals") and not getattr(cl, "may_be_vacuous", False):
@@ -345,7 +350,7 @@ def _discharge_clause(report, contract, case, path, P, pc, cl, props, oid, timeo
         report["obligations"].append(ob)
 
 
-def _differential(report, contract, case, path, P, pc, ctx, clauses, props, seed):
+def _differential(report, contract, case, path, P, pc, ctx, clauses, props, seed, pi=None):
     vals = pc_values(path, P)
     if vals is None:
         return
@@ -371,6 +376,18 @@ def _differential(report, contract, case, path, P, pc, ctx, clauses, props, seed
     except Exception as e:  # noqa
         report["faults"].append(f"differential: clauses() on the native objects raised {type(e).__name__}: {e}")
         return
+    if getattr(contract, "diff", "formulas") == "eval":
+        # solver-level scenarios: natively z3 picks one model; the clauses built on the native objects
+        # are closed facts about that run and must simply hold (a runtime check of the postconditions)
+        # natively z3 returns *some* model, not the one of this engine path: a clause that is false on
+        # the native run must be refuted on some engine path of this case (checked when the case ends)
+        for cn in ncl:
+            if not set(cn.props) & set(props):
+                continue
+            r = discharge.check(cn.hyps + [z3.Not(cn.goal)], 30)
+            if r["answer"] == "sat":
+                report.setdefault("native_false", []).append((cn.name, str(vals), str(cn.goal)[:600]))
+        return
     if [c.name for c in ncl] != [c.name for c in clauses]:
         report["faults"].append(f"differential: clause lists differ at {vals}")
         return
@@ -390,11 +407,25 @@ def _differential(report, contract, case, path, P, pc, ctx, clauses, props, seed
 
 
 # ------------------------------------------------------------------------------ replay
-def replay(contract_id, case, clause_name, params, raised=None):
+def replay(contract_id, case, clause_name, params, raised=None, schedule=None):
     """re-run a refuted obligation against the real library. returns dict(confirmed, observation)"""
+    import re
+
     contract = REGISTRY[contract_id]
-    kind, Pn, res = run_native(contract, case, params)
+    pins = None
+    if getattr(contract, "diff", "formulas") == "eval" and schedule:
+        # steer the real solver to the counterexample: pin the unknowns of the first returned model
+        pins = {}
+        for k, v in schedule.items():
+            m = re.match(r"^m(\d+)!(.+)$", k)
+            if m and isinstance(v, (int, bool)) and "!" not in m.group(2):
+                first = min(int(re.match(r"^m(\d+)!", kk).group(1)) for kk in schedule if re.match(r"^m\d+!", kk))
+                if int(m.group(1)) == first:
+                    pins[m.group(2)] = v
+    kind, Pn, res = run_native(contract, case, params, pins)
     obs = {"native_outcome": kind}
+    if pins:
+        obs["pinned"] = pins
     if clause_name.startswith("raises_only_if[") or clause_name.startswith("reaches_postcondition["):
         want = raised if raised else clause_name[len("raises_only_if[") : -1]
         obs["native_exception"] = f"{exc_name(res)}: {res}"[:500] if kind == "raise" else None
